@@ -434,3 +434,17 @@ pub broadcast proof fn axiom_strip_prefix_str<'a, 'b>(s: &'a str, p: &'b str)
         strip_prefix_spec::<&'b str>(s, p) matches Some(t) ==> t@ == s@.skip(p@.len() as int),
 {}
 } // verus!
+
+::vstd::prelude::verus! {
+// ---- more std predicates that small edits introduce (uninterpreted; widening of the accepted subset only)
+pub uninterp spec fn eq_ignore_case_spec(a: Seq<char>, b: Seq<char>) -> bool;
+pub assume_specification [str::eq_ignore_ascii_case](a: &str, b: &str) -> (r: bool) ensures r == eq_ignore_case_spec(a@, b@);
+pub uninterp spec fn char_pred_spec(which: int, c: char) -> bool;
+pub assume_specification [char::is_ascii_digit](c: &char) -> (r: bool) ensures r == char_pred_spec(1, *c);
+pub assume_specification [char::is_alphabetic](c: char) -> (r: bool) ensures r == char_pred_spec(2, c);
+pub assume_specification [char::is_alphanumeric](c: char) -> (r: bool) ensures r == char_pred_spec(3, c);
+pub assume_specification [char::is_numeric](c: char) -> (r: bool) ensures r == char_pred_spec(4, c);
+pub assume_specification [char::is_ascii](c: &char) -> (r: bool) ensures r == char_pred_spec(5, *c);
+pub assume_specification [char::is_ascii_alphabetic](c: &char) -> (r: bool) ensures r == char_pred_spec(6, *c);
+pub assume_specification [char::is_ascii_hexdigit](c: &char) -> (r: bool) ensures r == char_pred_spec(7, *c);
+} // verus!
